@@ -9,6 +9,7 @@ mod gen;
 mod out;
 mod physmem;
 mod pt;
+mod pte;
 mod regs;
 mod trap;
 
@@ -73,6 +74,7 @@ fn main() {
             "C20" => addr::run_c20_pure(&mut o, args.seed, args.n),
             _ => usage(),
         },
+        "pte" => pte::run_pte(&mut o, args.seed, args.n),
         "regs" => regs::run_regs(&mut o, args.seed, args.n),
         "ports" => cpufam::run_ports(&mut o, args.seed, args.n),
         "intr" => cpufam::run_intr(&mut o, args.seed, args.n),
